@@ -802,7 +802,18 @@ func main() {
 		genRaw(o, r.Split())
 	}
 	rs := r.Split()
-	shortSoak(o, rs.Split())
+	// same watchdog as for the membership scenarios: stopping real meta services can hang
+	soakDone := make(chan struct{})
+	rsoak := rs.Split()
+	go func() { shortSoak(o, rsoak); close(soakDone) }()
+	select {
+	case <-soakDone:
+	case <-time.After(240 * time.Second):
+		o.Count("soak:inconclusive:watchdog")
+		if f.Tier != "thorough" {
+			return // nothing else follows in the quick tier; the unfinished goroutine ends with the process
+		}
+	}
 	if f.Tier == "thorough" {
 		for i := 0; i < 3; i++ {
 			genSoak(o, rs.Split())
